@@ -86,13 +86,50 @@ class Work:
             for r in ex.map(sh, jobs):
                 if r.returncode != 0:
                     raise Infra("build (%s) failed:\n%s" % (variant, r.stdout[-3000:]))
+        self.internals(variant, cc, inc, har, link, obj, [os.path.join(obj, f[:-2] + ".o") for f in srcs])
         out = self.path("driver-" + variant)
-        objs = [os.path.join(obj, f) for f in sorted(os.listdir(obj))]
+        objs = [os.path.join(obj, f) for f in sorted(os.listdir(obj)) if f.endswith(".o")]
         r = sh([cc] + link + objs + ["-o", out, "-lutf8proc", "-lpthread", "-Wl,-z,now", "-Wl," + ",".join("--wrap=" + w for w in WRAPS)])
         if r.returncode != 0:
             raise Infra("link (%s) failed:\n%s" % (variant, r.stdout[-3000:]))
         self.drivers[variant] = out
         return out
+
+    FEATURES = ("MUL2", "POLYEVAL", "FIND", "LANG", "DATASIZE")
+
+    def internals(self, variant, cc, inc, har, link, obj, libobjs, absent=False):
+        """Optional direct observations of internals (harness/internals.c), one object per feature: compiled
+        and test-linked against the tree under test; a feature the tree does not offer (renamed, removed,
+        made static ...) is compiled as absent and the driver reports the observation as unavailable."""
+        src = os.path.join(ROOT, "harness", "internals.c")
+        main = os.path.join(obj, "zy_probe_main.c")
+        with open(main, "w") as f:
+            f.write("int main(void) { return 0; }\n")
+        missing = []
+
+        def one(feat):
+            o = os.path.join(obj, "zi_%s.o" % feat.lower())
+            if not absent:
+                r = sh([cc] + inc + har + ["-DPROBE_" + feat, "-c", src, "-o", o])
+                if r.returncode == 0:
+                    r = sh([cc] + link + [main, o] + libobjs + ["-o", os.path.join(obj, "zy_probe_" + feat), "-lutf8proc", "-lpthread"])
+                    for x in ("zy_probe_" + feat,):
+                        try:
+                            os.remove(os.path.join(obj, x))
+                        except OSError:
+                            pass
+                    if r.returncode == 0:
+                        return None
+            r = sh([cc] + inc + har + ["-DPROBE_" + feat, "-DABSENT", "-c", src, "-o", o])
+            if r.returncode != 0:
+                raise Infra("build (%s) of the internals stub failed:\n%s" % (variant, r.stdout[-2000:]))
+            return feat
+        with cf.ThreadPoolExecutor(NCPU) as ex:
+            missing = [m for m in ex.map(one, self.FEATURES) if m]
+        os.remove(main)
+        self.missing_internals = getattr(self, "missing_internals", {})
+        self.missing_internals[variant] = missing
+        return missing
 
     # -------------------------------------------------------------------------------------------
     def record(self, variant, script_lines):
@@ -156,15 +193,18 @@ class Work:
                 if r.returncode != 0:
                     raise Infra("build (%s) failed:\n%s" % (variant, r.stdout[-3000:]))
         libobjs = [os.path.join(obj, f[:-2] + ".o") for f in srcs]
+        # (the shared object exports the public API only: no internal observations there)
+        self.internals(variant, cc, inc, har, ["-fsanitize=thread"] if variant != "mt_so" else [], obj, libobjs, absent=(variant == "mt_so"))
+        intobjs = [os.path.join(obj, "zi_%s.o" % f.lower()) for f in self.FEATURES]
         if variant == "mt_so":
             so = os.path.join(obj, "libpolyseed_verif.so")
             r = sh([cc, "-shared", "-o", so] + libobjs + ["-Wl,-z,now", wraps])
             if r.returncode != 0:
                 raise Infra("link (.so) failed:\n" + r.stdout[-3000:])
-            r = sh([cc, os.path.join(obj, "zz_driver.o"), "-o", out, "-L" + obj, "-lpolyseed_verif", "-Wl,-rpath," + obj, "-rdynamic",
+            r = sh([cc, os.path.join(obj, "zz_driver.o")] + intobjs + ["-o", out, "-L" + obj, "-lpolyseed_verif", "-Wl,-rpath," + obj, "-rdynamic",
                     "-lutf8proc", "-lpthread", "-Wl,-z,now", wraps])
         else:
-            r = sh([cc, "-fsanitize=thread"] + libobjs + [os.path.join(obj, "zz_driver.o"), "-o", out, "-lutf8proc", "-lpthread", "-Wl,-z,now", wraps])
+            r = sh([cc, "-fsanitize=thread"] + libobjs + intobjs + [os.path.join(obj, "zz_driver.o"), "-o", out, "-lutf8proc", "-lpthread", "-Wl,-z,now", wraps])
         if r.returncode != 0:
             raise Infra("link (%s) failed:\n%s" % (variant, r.stdout[-3000:]))
         self.drivers[variant] = out
